@@ -279,6 +279,35 @@ def step (ss : Sess) (line : String) : Sess × String :=
     match tn.toNat?, td.toNat?, (splitBar ws).mapM parseInts with
     | some tn, some td, some [a, b] => (ss, toString (Identity.eqTimings ⟨tn, td⟩ a b))
     | _, _, _ => (ss, "bad-op")
+  -- xml: strings are passed as space separated character codes
+  | "xml_esc" :: ws =>
+    match ws.mapM (·.toNat?) with
+    | some cs =>
+      let str : Xml.Str := cs.map Char.ofNat
+      let e := Xml.escape str
+      let showS (x : Xml.Str) : String := " ".intercalate (x.map fun c => toString c.toNat)
+      (ss, s!"esc {showS e} ; back {showS (Xml.unescape e)} ; un {showS (Xml.unescape str)}")
+    | none => (ss, "bad-op")
+  | "xml_attrs" :: ws =>
+    -- line given as character codes; answers the parsed (key, value) pairs
+    match ws.mapM (·.toNat?) with
+    | some cs =>
+      let kvs := Xml.parseAttrs (cs.map Char.ofNat)
+      let showS (x : Xml.Str) : String := " ".intercalate (x.map fun c => toString c.toNat)
+      (ss, " | ".intercalate (kvs.map fun p => s!"{showS p.1} = {showS p.2}"))
+    | none => (ss, "bad-op")
+  | ["xml_hf", fileOk, complete, emptySc, backupKind] =>
+    -- handle_file decision logic on observations: does the file parse, is it complete / a childless
+    -- self-closing root, and the backup: none / ok / bad
+    let file : Xml.Str := if complete == "1" then "<r>x</r>".toList else if emptySc == "1" then "<r/>".toList else "<r>x".toList
+    let parse : Xml.Str → Option (Nat × Xml.Str × Bool) := fun s =>
+      if s == "BACKUP".toList then (if backupKind == "ok" then some (2, "r".toList, false) else none)
+      else if fileOk == "1" then some (1, "r".toList, emptySc == "1") else none
+    let fs : Xml.FS := { file := file, backup := if backupKind == "none" then none else some "BACKUP".toList }
+    let r := Xml.handleFile parse fs
+    let res := match r.1 with | .ok 1 => "file" | .ok _ => "backup" | .error _ => "error"
+    let bk := if r.2.backup == fs.backup then "kept" else "overwritten"
+    (ss, s!"{res} {bk}")
   -- pronto
   | "pronto_enc" :: freq :: kind :: ws =>
     match freq.toInt? with
